@@ -1776,6 +1776,16 @@ class Interp:
                     return self._index(sym_num(a_[1][: -len(".loc")]), idx.items[1], node)
                 if a_[0] == "fn" and a_[1] == ".loc" and len(a_[2]) == 1:
                     return self._index(Num(nf.unkey(a_[2][0])), idx.items[1], node)
+        if isinstance(base, Num) and isinstance(idx, TupV) and len(idx.items) == 2 and isinstance(idx.items[0], BoolV) and isinstance(idx.items[1], (StrV, TupV)):
+            # frame.loc[mask, name(s)]: the rows a boolean mask selects, then the named column(s) - frame[mask][name(s)]
+            a_ = self.single_atom(base.nf)
+            frame_ = None
+            if a_ is not None and a_[0] == "sym" and a_[1].endswith(".loc"):
+                frame_ = sym_num(a_[1][: -len(".loc")])
+            elif a_ is not None and a_[0] == "fn" and a_[1] == ".loc" and len(a_[2]) == 1:
+                frame_ = Num(nf.unkey(a_[2][0]))
+            if frame_ is not None:
+                return self._index(self._index(frame_, idx.items[0], node), idx.items[1], node)
         if isinstance(idx, Buf) and isinstance(base, Num):
             m_ = self._loop_mask(idx)
             if m_ is not None:
@@ -2265,6 +2275,10 @@ class Interp:
         return bound
 
     def _call_extobj(self, obj: ExtObj, args, kwargs, node):
+        if obj.qual in ("functools.lru_cache", "functools.cache") and len(args) == 1 and not kwargs and isinstance(args[0], (FuncV, LambdaV, PartialV)):
+            # cached = functools.lru_cache(maxsize=..., typed=...)(f): f, remembered per argument tuple (what may be
+            # remembered is rule M's business: the memoising-decorator clause reads this form too)
+            return args[0]
         if obj.qual == "collections.namedtuple" and not obj.args.get("recv"):
             # T = namedtuple("T", "a b c") / namedtuple("T", ["a", "b", "c"]); T(...) is the tuple with those field names
             spec = obj.args.get("field_names", obj.args.get("1"))
@@ -2296,6 +2310,8 @@ class Interp:
         if meth == "__setattr__" and isinstance(recv, SuperV) and len(args) == 2 and isinstance(args[0], StrV):
             self.store_attribute(recv.inst, args[0].s, args[1], node, raw=True)
             return NoneV()
+        if isinstance(recv, BoolV) and meth in ("to_numpy", "copy") and not args and not kwargs:
+            return recv  # a boolean mask as an array: the same mask
         if isinstance(recv, (Num, Vec, Buf, TupV)):
             if meth == "reshape" and isinstance(recv, Num) and "order" not in kwargs:
                 return recv  # the same elements in the same (C) order: an opaque array stands for its generic element
@@ -2396,6 +2412,12 @@ class Interp:
         return nf.show(self.to_nf(recv), 120)
 
     def _call_ext(self, qual, args, kwargs, node, env):
+        if qual in ("functools.lru_cache", "functools.cache") and len(args) == 1 and not kwargs and isinstance(args[0], (FuncV, LambdaV, PartialV)):
+            return args[0]
+        dflt = _EXT_DEFAULTS.get(qual)
+        if dflt and kwargs:
+            # a keyword spelled out at the library's own default is the call without it
+            kwargs = {k: v for k, v in kwargs.items() if not (k in dflt and _is_literal(v, dflt[k]))}
         out = kwargs.get("out")
         if isinstance(out, Vec) and qual.startswith("numpy."):
             # ufunc(..., out=v): the elementwise result is stored into v itself
@@ -2415,6 +2437,45 @@ class Interp:
         res = ExtObj(qual, bound, node, uid=self._uid)
         self.log("ext_call", node, callee=qual, args=bound, result=res)
         return res
+
+
+# defaults of library routines the package calls (scipy 1.11+ / numpy 1.26+ / pandas 2): a keyword given at this value is dropped
+_EXT_DEFAULTS = {
+    "scipy.interpolate.interp1d": {"kind": "linear", "axis": -1, "copy": True, "bounds_error": None, "assume_sorted": False},
+    "scipy.integrate.cumulative_trapezoid": {"axis": -1},
+    "scipy.integrate.quad": {"full_output": 0, "epsabs": "1.49e-08", "epsrel": "1.49e-08", "points": None, "weight": None, "wvar": None, "wopts": None, "maxp1": 50, "limlst": 50, "args": (), "complex_func": False},
+    "scipy.optimize.curve_fit": {"sigma": None, "absolute_sigma": False, "check_finite": None, "method": None, "jac": None, "full_output": False, "nan_policy": None},
+    "scipy.optimize.brentq": {"maxiter": 100, "full_output": False, "disp": True, "xtol": "2e-12", "args": ()},
+    "scipy.ndimage.uniform_filter1d": {"axis": -1, "mode": "reflect", "cval": 0, "origin": 0, "output": None},
+    "numpy.cumsum": {"axis": None, "dtype": None, "out": None},
+    "numpy.sum": {"dtype": None, "out": None, "keepdims": False},
+    "numpy.vectorize": {"otypes": None, "cache": False, "doc": None, "excluded": None, "signature": None},
+    "numpy.asarray": {"dtype": None, "order": None},
+    "numpy.array": {"dtype": None, "copy": True, "order": "K", "subok": False, "ndmin": 0},
+    "numpy.linspace": {"endpoint": True, "retstep": False, "dtype": None, "axis": 0},
+    "numpy.diff": {"n": 1, "axis": -1},
+    "pandas.DataFrame": {"index": None, "columns": None, "dtype": None},
+}
+
+
+def _is_literal(v, d):
+    """the abstract value v is the Python literal d"""
+    if d is None:
+        return isinstance(v, NoneV)
+    if isinstance(d, bool):
+        return (isinstance(v, BoolV) and v.kind == "const" and bool(v.a) == d) or (isinstance(v, Num) and nf.as_int(v.nf) == int(d) and d in (0, 1) and False)
+    if isinstance(d, int):
+        return (isinstance(v, Num) and nf.is_const(v.nf) and nf.cval(v.nf) == d) or (d in (0, 1) and isinstance(v, BoolV) and v.kind == "const" and int(bool(v.a)) == d)
+    if isinstance(d, str):
+        if isinstance(v, StrV):
+            return v.s == d
+        try:
+            return isinstance(v, Num) and nf.is_const(v.nf) and nf.equal(v.nf, nf.const_text(d))
+        except Exception:
+            return False
+    if isinstance(d, tuple):
+        return isinstance(v, TupV) and len(v.items) == len(d)  and not d
+    return False
 
 
 # ---------------------------------------------------------------------- small helpers
